@@ -21,7 +21,8 @@ ARITH = "decoder::arithmetic::DecoderArithmetic::"
 
 def hd_of(F, clo):
     """symbolic hard-decision function of a closure value: result of applying it to x"""
-    ev = SymEval(F, mode="real")
+    # local helper functions (a named `fn nonpos(x)` instead of a closure) are expanded; trait hooks stay symbolic
+    ev = SymEval(F, mode="real", inline=lambda p: F.bodies.get(p) if p and p.startswith("decoder::") and "DecoderArithmetic" not in p else None)
     try:
         return ev.apply(clo, [var("x")])
     except Unsupported as e:
